@@ -468,6 +468,10 @@ pub fn gen_c11(rng: &mut Rng) -> Value {
             if rng.chance(1, 3) {
                 o["size"] = json!(len);
             }
+            if rng.chance(1, 3) {
+                let a = o.get("algo").and_then(|a| a.as_str()).unwrap_or("sha256").to_string();
+                o["sri"] = if rng.chance(1, 2) || a == "xxh3" { json!({"val":vi,"algo":a}) } else { json!({"multi":[{"val":vi,"algo":a},{"val":vi,"algo":"xxh3"}]}) };
+            }
             st["opts"] = o;
         }
         if !matches!(entry, "write" | "write_algo") {
@@ -777,12 +781,19 @@ pub fn gen_c12(rng: &mut Rng) -> Value {
             6 => {
                 // wrong declarations
                 let mut o = json!({});
-                if rng.chance(1, 2) {
-                    o["size"] = json!(len + 1 + (1 << 20));
-                } else {
-                    o["sri"] = json!({"val":vi,"algo":"sha256","wrong":true});
+                match rng.below(3) {
+                    0 => o["size"] = json!(len + 1 + (1 << 20)),
+                    1 => o["sri"] = json!({"val":vi,"algo":"sha256","wrong":true}),
+                    _ => {
+                        o["size"] = json!(len + 1 + (1 << 20));
+                        o["sri"] = json!({"val":vi,"algo":"sha256","wrong":true});
+                    }
                 }
-                json!({"k":"api","op":"write","entry":"opts","key":ki,"val":vi,"opts":o})
+                let mut w = json!({"k":"api","op":"write","entry":"opts","val":vi,"opts":o});
+                if rng.chance(3, 4) {
+                    w["key"] = json!(ki);
+                }
+                w
             }
             7 | 8 => json!({"k":"api","op":"read","key":ki}),
             9 => json!({"k":"api","op":"read","addr":{"val":vi,"algo":"sha256"}}),
